@@ -32,6 +32,7 @@ Elems == (1..Plain) \cup ((AlikeBase + 1)..(AlikeBase + Alike))
 
 SiteSpec     == AllSorted
 SiteByRender == ByRender
+SiteAllRaw   == AllRaw
 SiteObserved == LET t == JsonDeserialize(IOEnv.SITE_FILE) IN [s \in TabKeys |-> t[s]]
 
 VARIABLES prog,     \* index into Programs
